@@ -145,3 +145,21 @@ Example C02_index_set_example :
   pexpand env0 (decls ++ [SBarrier [qs [1; 1]]]) = None /\
   pexpand env0 (decls ++ [SGate [] "h" [] [qs [1; 1]]]) = None.
 Proof. vm_compute. repeat split; reflexivity. Qed.
+
+(* slices with a literal step r[a:b:s]: the bits the model's own range function lists (Python range a, a+s, ... before b), both
+   ends checked against the register exactly as the visitor checks them (start and end - 1), so a descending slice down to
+   index 0 is refused, as the implementation refuses it *)
+Example C02_stepped_slice_example :
+  let q k := QIdx "q" [IdxList [IExpr (ELit (VInt k))]] in
+  let sl a b st := QIdx "q" [IdxList [IRange (Some (ELit (VInt a))) (Some (ELit (VInt b))) (Some (ELit (VInt st)))]] in
+  let decls := [SInclude "stdgates.inc"; SQubitDecl "q" (Some (ELit (VInt 6)))] in
+  let p := decls ++ [SGate [] "h" [] [sl 0 6 2]; SReset (sl 1 6 3); SBarrier [sl 5 1 (-2)]] in
+  pexpand env0 p =
+    Some (decls ++ [SGate [] "h" [] [q 0]; SGate [] "h" [] [q 2]; SGate [] "h" [] [q 4]; SReset (q 1); SReset (q 4);
+                    SBarrier [q 5]; SBarrier [q 3]],
+          [[Qr ("q", 0)]; [Qr ("q", 2)]; [Qr ("q", 4)]; [Qr ("q", 1)]; [Qr ("q", 4)]; [Qr ("q", 5); Qr ("q", 3)]]) /\
+  match unroll_v false [] p, pexpand env0 p with Ok o, Some (e, _) => list_eqb stmt_eqb (o_stmts o) e | _, _ => false end = true /\
+  pexpand env0 (decls ++ [SGate [] "h" [] [sl 0 7 2]]) = None /\
+  pexpand env0 (decls ++ [SGate [] "h" [] [sl 5 0 (-1)]]) = None /\
+  pexpand env0 (decls ++ [SGate [] "h" [] [sl 0 6 0]]) = None.
+Proof. vm_compute. repeat split; reflexivity. Qed.
